@@ -312,14 +312,23 @@ def run_coq_cases(prop, imports, exprs, shard=400, timeout=900):
 
 
 def load_known():
-    """known_findings.jsonl (assembled from findings.d/*.jsonl by tools/mkmanifest.py; never written at run time)"""
+    """known findings: the committed known_findings.jsonl is assembled from findings.d/*.jsonl by tools/mkmanifest.py;
+    the fragments are the source of truth and are read directly (never written at run time)"""
+    import glob
     out = []
-    p = os.path.join(ROOT, "known_findings.jsonl")
-    if os.path.exists(p):
+    seen = set()
+    paths = sorted(glob.glob(os.path.join(ROOT, "findings.d", "*.jsonl"))) + [os.path.join(ROOT, "known_findings.jsonl")]
+    for p in paths:
+        if not os.path.exists(p):
+            continue
         for line in open(p):
             line = line.strip()
             if line and not line.startswith("#") and not line.startswith("fixed:"):
-                out.append(json.loads(line))
+                j = json.loads(line)
+                key = (j.get("property"), j.get("finding_id"))
+                if key not in seen:
+                    seen.add(key)
+                    out.append(j)
     return out
 
 
@@ -423,7 +432,7 @@ def run_property(mod, tier, seed):
         obs.append(o)
         exprs.append(e)
         hist[c.op] = hist.get(c.op, 0) + 1
-    failing, err = run_coq_cases(prop, mod.COQ_IMPORTS, exprs)
+    failing, err = run_coq_cases(prop, mod.COQ_IMPORTS, exprs, shard=getattr(mod, "SHARD", 400))
     if err:
         path = write_replay(prop, {"property": prop, "kind": "model-evaluation-error", "error": err[-4000:]})
         violations.append((path, "no-failing-input-found"))
